@@ -359,7 +359,7 @@ pub proof fn lemma_any_extend(d0: Seq<Del>, d1: Seq<Del>, d2: Seq<Del>, ts: Map<
         final(w).resolved == old(w).resolved,
         /*[C12.off]*/ !arg_matches.has(CLEAN@) ==> final(w).deleted == old(w).deleted,
         /*[C12.scope,C12.frame,C08.clean-scope]*/ all_new_any(old(w).deleted, final(w).deleted, targets@, project_dirs@, requested_targets is Some),
-        /*[C10.main-order,C07.exit]*/ final(w).steps.len() > 0 ==> final(w).steps =~= seq![Step::Run, Step::Terminate],
+        /*[C10.main-order]*/ final(w).steps.len() > 0 ==> final(w).steps =~= seq![Step::Run, Step::Terminate],
         /*[C07.exit]*/ final(w).run_failed ==> r is Err,
         /*[C12.scope]*/ requested_targets is None ==> final(w).steps.len() == 0,
 //@pre
@@ -462,7 +462,9 @@ impl IrConfig {
     #[verifier::external_body]
     pub fn list_all_available_target_names(&self) -> Vec<String> { unimplemented!() }
     #[verifier::external_body]
-    pub fn list_all_targets(&self) -> Vec<TargetId> { unimplemented!() }
+    pub fn list_all_targets(&self) -> (r: Vec<TargetId>) ensures r@ == self.all_targets() { unimplemented!() }
+    /// every target of every loaded project (the roots when no name is given on the command line)
+    pub uninterp spec fn all_targets(&self) -> Seq<TargetId>;
     #[verifier::external_body]
     pub fn root_project_name(&self) -> (r: &Option<String>) ensures *r == self.root() { unimplemented!() }
     /// `try_into_domain_targets` (verified in CFG: closed, keyed by each target's own id)
@@ -474,7 +476,9 @@ impl IrConfig {
 /// `TargetId::try_parse_many(requested, &root).unwrap()`: clap only lets through names it was offered, and
 /// every offered name parses (A-clap + C19.parse)
 #[verifier::external_body]
-pub fn parse_requested(names: &Vec<String>, root: &Option<String>) -> Vec<TargetId> { unimplemented!() }
+pub fn parse_requested(names: &Vec<String>, root: &Option<String>) -> (r: Vec<TargetId>) ensures r@ == parsed_names(names@, *root) { unimplemented!() }
+/// `TargetId::try_parse_many(names, root).unwrap()` as a function (DOM unit: element-wise `parse_ref`)
+pub uninterp spec fn parsed_names(names: Seq<String>, root: Option<String>) -> Seq<TargetId>;
 
 //@fn src/main.rs main ret=r as=zinoma_main
 //@replace `stderrlog::new()\n        .module(module_path!())\n        .verbosity(arg_matches.occurrences_of(cli::arg::VERBOSITY) as usize + 2)\n        .init()\n        .unwrap();` => `init_logging(&arg_matches);\n\n\n\n` rule=R2 pre why=`logger initialisation: no contract mentions logging`
@@ -489,8 +493,17 @@ pub fn parse_requested(names: &Vec<String>, root: &Option<String>) -> Vec<Target
         old(w).steps.len() == 0, !old(w).run_failed,
     ensures
         /*[C09.before-effects,C14.before-effects]*/ final(w).deleted != old(w).deleted || final(w).steps.len() > 0 ==> final(w).resolved,
-        /*[C10.main-order,C07.exit]*/ final(w).steps.len() > 0 ==> final(w).steps =~= seq![Step::Run, Step::Terminate],
+        /*[C10.main-order]*/ final(w).steps.len() > 0 ==> final(w).steps =~= seq![Step::Run, Step::Terminate],
         /*[C07.exit]*/ final(w).run_failed ==> r is Err,
+//@before 0 `let targets = config.try_into_domain_targets(&root_target_ids)?;`
+    let ghost all0 = config.all_targets();
+    let ghost root0 = config.root();
+    proof {
+        // [C19.roots] what is resolved (and later handed to the engine) is exactly what was asked for: every name
+        // given on the command line, parsed with the root project as default, in order; all targets otherwise
+        assert(/*[C19.roots]*/ requested_targets matches Some(names) ==> root_target_ids@ == parsed_names(names@, root0));
+        assert(/*[C19.roots]*/ requested_targets is None ==> root_target_ids@ == all0);
+    }
 //@after 0 `let targets = config.try_into_domain_targets(&root_target_ids)?;`
     proof { w.resolved = true; }
 //@end
